@@ -23,6 +23,7 @@
 #include <kernel/lafem/sparse_matrix_csr.hpp>
 #include <kernel/lafem/dense_vector.hpp>
 #include <kernel/lafem/transfer.hpp>
+#include <kernel/space/dof_mapping_renderer.hpp>
 #include <cstring>
 
 using namespace FEAT;
@@ -254,8 +255,92 @@ void function_agreement(const MeshT<Shape_>& cmesh, const MeshT<Shape_>& fmesh, 
   ce.finish(); fe.finish();
 }
 
+// for every cell of `inner` the cell of `outer` that contains its barycentre (own inverse mapping); ~0 if none
+template<class Shape_> std::vector<Index> containing_cells(const MeshT<Shape_>& outer, const MeshT<Shape_>& inner)
+{
+  constexpr int dim = Shape_::dimension;
+  typedef OwnMap<Shape_> OM;
+  std::vector<Index> par(inner.get_num_elements(), ~Index(0));
+  for(Index fc(0); fc < inner.get_num_elements(); ++fc)
+  {
+    LD bc[3] = {0, 0, 0}, xb[3], xi[3];
+    if(!Fam<Shape_>::cube) for(int a(0); a < dim; ++a) bc[a] = LD(1) / LD(dim + 1);
+    OM::map(inner, fc, bc, xb);
+    for(Index cc(0); cc < outer.get_num_elements(); ++cc) if(OM::unmap(outer, cc, xb, xi, LD(1e-9))) { par[fc] = cc; break; }
+  }
+  return par;
+}
+// graph inner cell -> containing outer cell, and its transpose
+inline Adjacency::Graph graph_from_map(const std::vector<Index>& img, Index nimage)
+{
+  std::vector<Index> ptr(img.size() + 1);
+  for(std::size_t i(0); i <= img.size(); ++i) ptr[i] = Index(i);
+  return Adjacency::Graph(Index(img.size()), nimage, Index(img.size()), ptr.data(), img.data());
+}
+
+// Inter-mesh transfer matrix X: source space -> target space, assembled by the real GridTransfer::assemble_intermesh_transfer_direct.
+// The sparsity pattern is composed here from the cell adjacency (in the CURRENT numbering of both meshes) and the dof mappings, so
+// nothing but the numeric assembly under test looks at mesh permutations.  trg2src: target cell -> source cells.
+template<class Space_>
+int intermesh(MatrixType& X, const Space_& trg, const Space_& src, const Adjacency::Graph& trg2src, const std::string& cub)
+{
+  Adjacency::Graph trg_dofs(Space::DofMappingRenderer::render(trg));
+  Adjacency::Graph src_dofs(Space::DofMappingRenderer::render(src));
+  Adjacency::Graph src2trg(Adjacency::RenderType::transpose_sorted, trg2src);
+  Adjacency::Graph trg_support(Adjacency::RenderType::injectify_transpose, src2trg, trg_dofs);
+  Adjacency::Graph pattern(Adjacency::RenderType::injectify_sorted, trg_support, src_dofs);
+  X = MatrixType(pattern);
+  X.format();
+  return Assembly::GridTransfer::assemble_intermesh_transfer_direct(X, trg, src, trg2src, cub);
+}
+
+static bool is_identity_within(const MatrixType& M, double tol, double& dev)
+{
+  dev = 0; std::vector<char> diag(M.rows(), 0);
+  for(Index i(0); i < M.rows(); ++i) for(Index k(M.row_ptr()[i]); k < M.row_ptr()[i + 1]; ++k)
+  { const bool d = (M.col_ind()[k] == i); if(d) diag[i] = 1; dev = std::max(dev, std::fabs(M.val()[k] - (d ? 1.0 : 0.0))); }
+  for(Index i(0); i < M.rows(); ++i) if(!diag[i]) dev = std::max(dev, 1.0);
+  return M.rows() == M.columns() && dev <= tol;
+}
+static double max_entry_dev(const MatrixType& A, const MatrixType& B)
+{
+  if(A.rows() != B.rows() || A.columns() != B.columns()) return 1e300;
+  std::vector<double> row(A.columns(), 0.0); double dev = 0;
+  for(Index i(0); i < A.rows(); ++i)
+  {
+    for(Index k(A.row_ptr()[i]); k < A.row_ptr()[i + 1]; ++k) row[A.col_ind()[k]] += A.val()[k];
+    for(Index k(B.row_ptr()[i]); k < B.row_ptr()[i + 1]; ++k) row[B.col_ind()[k]] -= B.val()[k];
+    for(Index k(A.row_ptr()[i]); k < A.row_ptr()[i + 1]; ++k) { dev = std::max(dev, std::fabs(row[A.col_ind()[k]])); row[A.col_ind()[k]] = 0; }
+    for(Index k(B.row_ptr()[i]); k < B.row_ptr()[i + 1]; ++k) { dev = std::max(dev, std::fabs(row[B.col_ind()[k]])); row[B.col_ind()[k]] = 0; }
+  }
+  return dev;
+}
+
+// prol / rest / trunc(prol) of a transfer object of any data/index type, returned as double vectors
+template<class Transfer_>
+void use_transfer(const Transfer_& tr, const VectorType& x, const VectorType& y, bool with_trunc, VectorType& px, VectorType& ry, VectorType& tpx)
+{
+  typedef typename Transfer_::VectorType V2;
+  V2 x2, y2; x2.convert(x); y2.convert(y);
+  V2 px2(y.size()), ry2(x.size()), tpx2(x.size());
+  px2.format(); ry2.format(); tpx2.format();
+  tr.prol(px2, x2); tr.rest(y2, ry2);
+  if(with_trunc) tr.trunc(px2, tpx2);
+  px.convert(px2); ry.convert(ry2); tpx.convert(tpx2);
+}
+static bool vec_same(const VectorType& a, const VectorType& b, double tol, const VectorType* scale = nullptr)
+{
+  if(a.size() != b.size()) return false;
+  for(Index i(0); i < a.size(); ++i)
+  {
+    const double t = tol * (1.0 + (scale ? 0.0 : std::fabs(a(i))));
+    if(tol == 0.0 ? (std::memcmp(&a.elements()[i], &b.elements()[i], sizeof(double)) != 0 && a(i) != b(i)) : !(std::fabs(a(i) - b(i)) <= t)) return false;
+  }
+  return true;
+}
+
 template<class Shape_, class Space_>
-vj::Value run_transfer(const vj::Value& c, MeshT<Shape_>& cmesh, MeshT<Shape_>& fmesh, int K)
+vj::Value run_transfer(const vj::Value& c, MeshT<Shape_>& cmesh, MeshT<Shape_>& fmesh, MeshT<Shape_>* fmesh0, int K)
 {
   typedef MeshT<Shape_> MeshType;
   typedef Trafo::Standard::Mapping<MeshType> TrafoType;
@@ -325,6 +410,82 @@ vj::Value run_transfer(const vj::Value& c, MeshT<Shape_>& cmesh, MeshT<Shape_>& 
     for(Index j(0); j < ngc; ++j) rdev = std::max(rdev, std::fabs(ry(j) - pty[j]) / (1.0 + mag[j]));
   }
 
+  // ---- Transfer object life cycle: trunc of the object itself, clone(), convert() then use ----
+  VectorType tpx(ngc), o_px(ngf), o_ry(ngc), o_tpx(ngc);
+  tpx.format();
+  if(want_trunc) transfer.trunc(pxt, tpx);
+  bool clone_ok = true, cvi_ok = true, cvf_ok = true, cvf_tp_ok = true;
+  {
+    auto cl_deep = transfer.clone(LAFEM::CloneMode::Deep);
+    use_transfer(cl_deep, x, y, want_trunc, o_px, o_ry, o_tpx);
+    clone_ok = clone_ok && vec_same(o_px, pxt, 0.0) && vec_same(o_ry, ry, 0.0) && vec_same(o_tpx, tpx, 0.0);
+    auto cl_weak = transfer.clone(LAFEM::CloneMode::Weak);
+    use_transfer(cl_weak, x, y, want_trunc, o_px, o_ry, o_tpx);
+    clone_ok = clone_ok && vec_same(o_px, pxt, 0.0) && vec_same(o_ry, ry, 0.0) && vec_same(o_tpx, tpx, 0.0);
+    // index type conversion: same doubles, so bitwise the same results
+    LAFEM::Transfer<LAFEM::SparseMatrixCSR<double, unsigned int>> cvi;
+    cvi.convert(transfer);
+    use_transfer(cvi, x, y, want_trunc, o_px, o_ry, o_tpx);
+    cvi_ok = vec_same(o_px, pxt, 0.0) && vec_same(o_ry, ry, 0.0) && vec_same(o_tpx, tpx, 0.0);
+    // data type conversion: single precision, results within 64 eps_float * (1 + |value|) * row length bound
+    LAFEM::Transfer<LAFEM::SparseMatrixCSR<float, Index>> cvf;
+    cvf.convert(transfer);
+    use_transfer(cvf, x, y, want_trunc, o_px, o_ry, o_tpx);
+    const double ftol = 2e-4;
+    cvf_ok = vec_same(o_px, pxt, ftol) && vec_same(o_ry, ry, ftol) && vec_same(o_tpx, tpx, ftol);
+    // TruncLeftInverse on the converted object itself (judged for nested families)
+    for(Index i(0); i < ngc; ++i) if(!(std::fabs(o_tpx(i) - x(i)) <= 2e-4 * (1.0 + std::fabs(x(i))))) cvf_tp_ok = false;
+  }
+
+  // ---- inter-mesh transfer (GridTransfer::assemble_intermesh_transfer) ----
+  // XC: fine -> coarse (target coarse; with xcub the target cubature points lie on interfaces of the source cells): XC P = I
+  // XF: coarse -> fine (target fine): XF = P;   XS: fine mesh in its original numbering -> this (possibly permuted) fine mesh: a permutation
+  const std::string xcub = c.get_str("xcub", "");
+  int xfail = 0; bool x_done = false, xs_done = false, xf_ok = true, xs_fn_ok = true; double xc_dev = 0, xf_dev = 0;
+  MatrixType XCP, XF, XS;
+  Proj pxc, pxf, pxs;
+  if(!xcub.empty())
+  {
+    const std::vector<Index> parent = containing_cells<Shape_>(cmesh, fmesh);
+    bool all = true; for(Index p : parent) if(p == ~Index(0)) all = false;
+    if(all)
+    {
+      Adjacency::Graph f2c = graph_from_map(parent, cmesh.get_num_elements());
+      Adjacency::Graph c2f(Adjacency::RenderType::transpose_sorted, f2c);
+      if(c.get_int("xnested", 0) != 0)
+      {
+        MatrixType XC;
+        xfail += intermesh(XC, cspace, fspace, c2f, xcub);
+        XCP = mat_mat(XC, P);
+        is_identity_within(XCP, 1e-9, xc_dev);
+        xfail += intermesh(XF, fspace, cspace, f2c, c.get_str("xcubf", xcub));
+        xf_dev = max_entry_dev(XF, P);
+        xf_ok = xf_dev <= 1e-9;
+        x_done = true;
+      }
+    }
+    // same geometry, other numbering
+    {
+      const MeshType& smesh = fmesh0 ? *fmesh0 : fmesh;
+      TrafoType strafo(const_cast<MeshType&>(smesh));
+      Space_ sspace(strafo);
+      const std::vector<Index> twin = containing_cells<Shape_>(smesh, fmesh);
+      bool alls = true; for(Index p : twin) if(p == ~Index(0)) alls = false;
+      if(alls)
+      {
+        Adjacency::Graph t2s = graph_from_map(twin, smesh.get_num_elements());
+        xfail += intermesh(XS, fspace, sspace, t2s, c.get_str("xcubs", xcub));
+        VectorType ys(ngf), xy(ngf);
+        for(Index i(0); i < ngf; ++i) ys(i, y(i));
+        xy.format(); XS.apply(xy, ys);
+        long long n2 = 0, b2 = 0, o2 = 0; double w2 = 0;
+        function_agreement<Shape_, Space_>(smesh, fmesh, sspace, fspace, ys.elements(), xy.elements(), n2, b2, o2, w2);
+        xs_fn_ok = (n2 > 0 && b2 == 0 && o2 == 0);
+        xs_done = true;
+      }
+    }
+  }
+
   // ---- dump ----
   const std::string out = c["out"].as_str();
   FILE* f = std::fopen(out.c_str(), "w");
@@ -362,12 +523,22 @@ vj::Value run_transfer(const vj::Value& c, MeshT<Shape_>& cmesh, MeshT<Shape_>& 
   std::fputs(",\"pxt\":", f); put_vec(f, pxt, ps, pxt_);
   std::fputs(",\"pxv\":", f); put_vec(f, pxv, ps, pv);
   std::fputs(",\"ry\":", f); put_vec(f, ry, ps, pry);
+  Proj ptpx;
+  std::fputs(",\"tpx\":", f); put_vec(f, tpx, 1.0, ptpx);
+  std::fprintf(f, ",\"trunc\":%s,\"tpxnoise\":%s,\"clone_ok\":%s,\"cvi_ok\":%s,\"cvf_ok\":%s,\"cvf_tp_ok\":%s", want_trunc ? "true" : "false",
+    ptpx.noise ? "true" : "false", clone_ok ? "true" : "false", cvi_ok ? "true" : "false", cvf_ok ? "true" : "false", cvf_tp_ok ? "true" : "false");
+  std::fprintf(f, ",\"xdone\":%s,\"xsdone\":%s,\"xfail\":%d", x_done ? "true" : "false", xs_done ? "true" : "false", xfail);
+  std::fputs(",\"XCP\":", f); if(x_done) put_rows(f, XCP, 1.0, pxc); else std::fputs("[]", f);
+  std::fputs(",\"XF\":", f); if(x_done && intmode) put_rows(f, XF, ps, pxf); else std::fputs("[]", f);
+  std::fputs(",\"XS\":", f); if(xs_done) put_rows(f, XS, 1.0, pxs); else std::fputs("[]", f);
+  std::fprintf(f, ",\"xcnoise\":%s,\"xfnoise\":%s,\"xsnoise\":%s,\"xf_ok\":%s,\"xs_fn_ok\":%s", pxc.noise ? "true" : "false", pxf.noise ? "true" : "false",
+    pxs.noise ? "true" : "false", xf_ok ? "true" : "false", xs_fn_ok ? "true" : "false");
   std::fprintf(f, ",\"pnoise\":%s,\"tnoise\":%s,\"vnoise\":%s,\"xnoise\":%s,\"rnoise\":%s,\"rbit\":%s}\n", (pp.noise || pr.noise) ? "true" : "false",
     pt.noise ? "true" : "false", pv.noise ? "true" : "false", pxt_.noise ? "true" : "false", pry.noise ? "true" : "false", rbit ? "true" : "false");
   std::fclose(f);
   if(!exact) return vh::bad("a mesh coordinate left the integer domain at scale 2^K");
   vj::Value r = vh::ok();
-  r["dev_p"] = pp.worst; r["dev_tp"] = pt.worst; r["dev_v"] = pv.worst; r["dev_fn"] = fn_worst; r["vdev"] = vdev; r["rdev"] = rdev; r["ngf"] = (long long)ngf; r["nnz"] = (long long)P.used_elements();
+  r["dev_p"] = pp.worst; r["dev_tp"] = pt.worst; r["dev_v"] = pv.worst; r["dev_fn"] = fn_worst; r["vdev"] = vdev; r["rdev"] = rdev; r["xc_dev"] = xc_dev; r["xf_dev"] = xf_dev; r["dev_xs"] = pxs.worst; r["ngf"] = (long long)ngf; r["nnz"] = (long long)P.used_elements();
   return r;
 }
 
@@ -403,8 +574,10 @@ template<class Shape_> vj::Value run_shape(const vj::Value& c)
     fmesh = ref.make_unique();
   }
   const std::string perm = c.get_str("perm", "none");
+  std::unique_ptr<MeshType> fmesh0;     // the fine mesh in its original numbering (source of the permuted-mesh inter-mesh transfer)
   if(perm != "none")
   {
+    fmesh0.reset(new MeshType(fmesh->clone()));
     cmesh->create_permutation(strategy_of(perm));
     fmesh->create_permutation(strategy_of(perm));
   }
@@ -412,15 +585,15 @@ template<class Shape_> vj::Value run_shape(const vj::Value& c)
   if(K < 0) { vj::Value r = vh::ok(); r["skip"] = true; r["why"] = "mesh coordinates are not dyadic (outside the exact domain)"; return r; }
 
   const std::string el = c["el"].as_str();
-  if(el == "lagrange1") return run_transfer<Shape_, Space::Lagrange1::Element<TrafoType>>(c, *cmesh, *fmesh, K);
-  if(el == "lagrange2") return run_transfer<Shape_, Space::Lagrange2::Element<TrafoType>>(c, *cmesh, *fmesh, K);
-  if(el == "lagrange3") return run_transfer<Shape_, Space::Lagrange3::Element<TrafoType>>(c, *cmesh, *fmesh, K);
-  if constexpr (Fam<Shape_>::cube) { if(el == "bernstein2") return run_transfer<Shape_, Space::Bernstein2::Element<TrafoType>>(c, *cmesh, *fmesh, K); }
-  if(el == "discontinuous0") return run_transfer<Shape_, Space::Discontinuous::Element<TrafoType, Space::Discontinuous::Variant::StdPolyP<0>>>(c, *cmesh, *fmesh, K);
+  if(el == "lagrange1") return run_transfer<Shape_, Space::Lagrange1::Element<TrafoType>>(c, *cmesh, *fmesh, fmesh0.get(), K);
+  if(el == "lagrange2") return run_transfer<Shape_, Space::Lagrange2::Element<TrafoType>>(c, *cmesh, *fmesh, fmesh0.get(), K);
+  if(el == "lagrange3") return run_transfer<Shape_, Space::Lagrange3::Element<TrafoType>>(c, *cmesh, *fmesh, fmesh0.get(), K);
+  if constexpr (Fam<Shape_>::cube) { if(el == "bernstein2") return run_transfer<Shape_, Space::Bernstein2::Element<TrafoType>>(c, *cmesh, *fmesh, fmesh0.get(), K); }
+  if(el == "discontinuous0") return run_transfer<Shape_, Space::Discontinuous::Element<TrafoType, Space::Discontinuous::Variant::StdPolyP<0>>>(c, *cmesh, *fmesh, fmesh0.get(), K);
   if constexpr (!Fam<Shape_>::cube)
   {
-    if(el == "discontinuous1") return run_transfer<Shape_, Space::Discontinuous::Element<TrafoType, Space::Discontinuous::Variant::StdPolyP<1>>>(c, *cmesh, *fmesh, K);
-    if(el == "crorav") return run_transfer<Shape_, Space::CroRavRanTur::Element<TrafoType>>(c, *cmesh, *fmesh, K);
+    if(el == "discontinuous1") return run_transfer<Shape_, Space::Discontinuous::Element<TrafoType, Space::Discontinuous::Variant::StdPolyP<1>>>(c, *cmesh, *fmesh, fmesh0.get(), K);
+    if(el == "crorav") return run_transfer<Shape_, Space::CroRavRanTur::Element<TrafoType>>(c, *cmesh, *fmesh, fmesh0.get(), K);
   }
   return vh::bad("element family not bound in this harness: " + el);
 }
